@@ -5,7 +5,7 @@ import vlib, seq
 
 RETRIES = ["rp", "rp0", "rp1", "rp3", "rpH", "rpHE", "rpH2", "rpA", "rpA2", "rpAR", "rpL", "rpU", "rpD", "rpUD", "rpDL"]
 INNER = ["cbB", "cbX", "fbH", "fbX", "bh1", "rl2"]
-OUTS = [seq.out("R0"), seq.out("R1"), seq.out("R0", "E1"), seq.out("R0", "E2"), seq.out("R0", "E3")]
+OUTS = [seq.out("R0"), seq.out("R1"), seq.out("R0", "E1"), seq.out("R0", "E2"), seq.out("R1", "E3")]      # (the last: a result together with an error)
 OUTS_T = [seq.out("R1", d=1), seq.out("R0", "E1"), seq.out("R0", "E1", d=1), seq.out("R0", "E1", d=2), seq.out("R0", "E2", d=3)]
 
 
